@@ -122,6 +122,47 @@ class Acc:
         self.pert_kinds[base] = self.pert_kinds.get(base, 0) + 1
 
 
+class Batch:
+    """Collect model expressions from all layers, evaluate them in ONE sharded coqc round
+    (each coqc start costs seconds), then hand every layer its slice of the answers."""
+
+    def __init__(self, ctx):
+        self.ctx = ctx
+        self.light, self.heavy = [], []
+
+    def add(self, exprs, fn, heavy=False):
+        (self.heavy if heavy else self.light).append((exprs, fn))
+
+    def run(self):
+        import math
+        from concurrent.futures import ThreadPoolExecutor
+        jobs = []
+        for name, group, per in (("light", self.light, None), ("heavy", self.heavy, 2)):
+            ex = [e for exprs, _ in group for e in exprs]
+            if ex:
+                jobs.append((name, group, ex, per or max(10, math.ceil(len(ex) / 12))))
+        with ThreadPoolExecutor(max_workers=2) as pool:
+            futs = [(group, pool.submit(c.coq_eval, self.ctx, name, PRE, ex, shard)) for name, group, ex, shard in jobs]
+            for group, f in futs:
+                terms = f.result()
+                i = 0
+                for exprs, fn in group:
+                    fn(terms[i:i + len(exprs)])
+                    i += len(exprs)
+
+
+def harness_rows(ctx, binp, specs):
+    """Run the harness modes concurrently; returns {mode: (rc, rows, out)}."""
+    from concurrent.futures import ThreadPoolExecutor
+    res = {}
+    with ThreadPoolExecutor(max_workers=len(specs)) as pool:
+        futs = {m: pool.submit(c.run_bin, binp, [m, ctx.seed, n], 6000) for m, n in specs}
+        for m, f in futs.items():
+            rc, out = f.result()
+            res[m] = (rc, [json.loads(l) for l in out.splitlines() if l.startswith("{")], out)
+    return res
+
+
 def slim(d):
     d = dict(d)
     if "tie" in d:
@@ -130,18 +171,19 @@ def slim(d):
 
 
 # ------------------------------------------------------------------------------- encoding layer
-def check_enc(ctx, acc, binp, n):
-    rc, out = c.run_bin(binp, ["enc", ctx.seed, n], timeout=600)
-    rows = [json.loads(l) for l in out.splitlines() if l.startswith("{")]
-    if rc != 0 or not rows:
-        ctx.violation({"layer": "harness enc", "output": out[-1500:]}, "enc harness failed", no_input=True)
-        return
+def check_enc(ctx, acc, batch, rows):
     encs = [r for r in rows if r["k"] == "enc"]
     cmps = [r for r in rows if r["k"] == "cmp"]
     exprs = ["(wf_attr %s, encode_bytes %s, encode %s =? encode_closed %s)" % ((coq_attr(r["a"]),) * 4) for r in encs]
     exprs += ["(attr_cmp %s %s, enc_ltb %s %s, canon %s, canon %s)" % (coq_attr(r["a"]), coq_attr(r["b"]), coq_attr(r["a"]), coq_attr(r["b"]),
                                                                     coq_attr(r["a"]), coq_attr(r["b"])) for r in cmps]
-    terms = c.coq_eval(ctx, "enc", PRE, exprs, shard=200)
+    batch.add(exprs, lambda terms: judge_enc(ctx, acc, rows, encs, cmps, terms))
+    ctx.cov["evaluations"] += len(rows)
+    ctx.cov["traces_validated_against_impl"] += len(encs) + len(cmps)
+    ctx.cov["samples"].append(json.dumps(encs[5])[:300])
+
+
+def judge_enc(ctx, acc, rows, encs, cmps, terms):
     by_fe = {}
     for r, t in zip(encs, terms):
         wf, bs, closed = t
@@ -198,22 +240,22 @@ def check_enc(ctx, acc, binp, n):
             if (fa < fb) != (r["ord"] < 0):
                 acc.viol({"case": r, "theorem": "encoding_order_preserving"},
                          "scalar order and attribute order disagree within one value class")
-    ctx.cov["evaluations"] += len(rows)
-    ctx.cov["traces_validated_against_impl"] += len(encs) + len(cmps)
-    ctx.cov["samples"].append(json.dumps(encs[5])[:300])
 
 
 # ------------------------------------------------------------------------------- statements (id level)
 CONTEXT_PERTS = ("challenge_bitflip", "challenge_extended", "challenge_truncated", "global_genesis_string", "cred_id")
 
 
-def check_stmt_rows(ctx, acc, rows, kf_ids, flow):
+def check_stmt_rows(ctx, acc, batch, rows, kf_ids, flow):
     exprs = []
     for d in rows:
         al, ss = coq_alist(d["al"]), "[" + ";".join(coq_stmt(s) for s in d["ss"]) + "]"
         exprs.append("(let al := %s in let ss := %s in (map (outcome_of R_BLS 256 al) ss, map (holds al) ss, "
                      "map (supported_al 256 al) ss, map (fun p => encode (snd p)) al))" % (al, ss))
-    terms = c.coq_eval(ctx, "stmt_" + flow, PRE, exprs, shard=40)
+    batch.add(exprs, lambda terms: judge_stmt_rows(ctx, acc, rows, kf_ids, flow, terms))
+
+
+def judge_stmt_rows(ctx, acc, rows, kf_ids, flow, terms):
     for d, t in zip(rows, terms):
         outs, holds, supp, encs = t
         outs = list(outs); holds = list(holds); supp = list(supp); encs = list(encs)
@@ -290,7 +332,9 @@ def check_stmt_rows(ctx, acc, rows, kf_ids, flow):
             if not d["ss"]:
                 acc.count("observation: empty statement list binds nothing")
                 continue
-            if v1_range_only and base in CONTEXT_PERTS and "KF-C18-3" in kf_ids:
+            v1_swap = (d["ver"] == 1 and base == "statements_and_proofs_swapped" and len(d["ss"]) >= 2
+                       and "range" in (d["ss"][0]["s"], d["ss"][1]["s"]))
+            if ((v1_range_only and base in CONTEXT_PERTS) or v1_swap) and "KF-C18-3" in kf_ids:
                 ctx.known_finding("KF-C18-3", KF["KF-C18-3"])
                 acc.count("known:KF-C18-3")
                 continue
@@ -298,7 +342,7 @@ def check_stmt_rows(ctx, acc, rows, kf_ids, flow):
                      % (name, kinds, d["ver"]))
 
 
-def check_ties(ctx, acc, rows):
+def check_ties(ctx, acc, batch, rows):
     ties = [d for d in rows if isinstance(d.get("tie"), dict)]
     if not ties:
         return 0
@@ -316,7 +360,11 @@ def check_ties(ctx, acc, rows):
             exprs.append("v1_account_reveal_prefix %s" % " ".join(hexlist(t[k]) for k in (
                 "given", "requested", "global", "proof_version", "created", "issuer", "statements", "network", "cred_id",
                 "x", "keys", "C", "public", "coeff", "point")))
-    terms = c.coq_eval(ctx, "tie", PRE, exprs, shard=1)
+    batch.add(exprs, lambda terms: judge_ties(acc, ties, terms), heavy=True)
+    return len(ties)
+
+
+def judge_ties(acc, ties, terms):
     for d, bs in zip(ties, terms):
         acc.count("transcript-tie:" + d["tie"]["flow"])
         h = hashlib.sha3_256(bytes(bs)).hexdigest()
@@ -324,20 +372,19 @@ def check_ties(ctx, acc, rows):
             acc.viol({"flow": d["tie"]["flow"], "model_sha3": h, "impl_challenge": d["tie"]["fs"], "model_len": len(bs),
                       "layer": "transcript contents (Statements.v item lists)"},
                      "first Fiat-Shamir challenge of a %s proof is not the SHA3 of the model transcript" % d["tie"]["flow"])
-    return len(ties)
 
 
-def check_frames(ctx, acc, binp, n):
-    rc, out = c.run_bin(binp, ["frame", ctx.seed, n], timeout=300)
-    rows = [json.loads(l) for l in out.splitlines() if l.startswith("{")]
-    if rc != 0 or not rows:
-        ctx.violation({"layer": "harness frame", "output": out[-1500:]}, "frame harness failed", no_input=True)
-        return
+def check_frames(ctx, acc, batch, rows):
     exprs = []
     for r in rows:
         items = "[" + ";".join("Item %s %s" % (hexlist(l), hexlist(m)) for l, m in [[r["dom"], ""]] + r["items"]) + "]"
         exprs.append("(frame_v1 %s, frame_v0 %s)" % (items, items))
-    terms = c.coq_eval(ctx, "frame", PRE, exprs, shard=100)
+    batch.add(exprs, lambda terms: judge_frames(acc, rows, terms))
+    ctx.cov["evaluations"] += len(rows)
+    ctx.cov["traces_validated_against_impl"] += len(rows)
+
+
+def judge_frames(acc, rows, terms):
     for r, (b1, b0) in zip(rows, terms):
         acc.count("frame")
         acc.case(["frame", r["dom"], r["items"]], True)
@@ -345,12 +392,10 @@ def check_frames(ctx, acc, binp, n):
             acc.viol({"case": r, "model_bytes": bytes(b1).hex()}, "TranscriptProtocolV1 framing differs from the model")
         if hashlib.sha3_256(bytes(b0)).hexdigest() != r["v0"]:
             acc.viol({"case": r, "model_bytes": bytes(b0).hex()}, "RandomOracle framing differs from the model")
-    ctx.cov["evaluations"] += len(rows)
-    ctx.cov["traces_validated_against_impl"] += len(rows)
 
 
 # ------------------------------------------------------------------------------- presentations
-def check_presentations(ctx, acc, rows, kf_ids, flow):
+def check_presentations(ctx, acc, batch, rows, kf_ids, flow):
     """rows: {"k":"pres", "flow":..., "creds":[{"ty","al","ss","kind"}...], "prove", "verify", "same_request", "pert":[[name,res]]}"""
     # per credential: model prediction as for id-level statements
     exprs, index = [], []
@@ -359,7 +404,10 @@ def check_presentations(ctx, acc, rows, kf_ids, flow):
             al, ss = coq_alist(cr["al"]), "[" + ";".join(coq_stmt(s) for s in cr["ss"]) + "]"
             exprs.append("(let al := %s in let ss := %s in (map (outcome_of R_BLS 256 al) ss, map (holds al) ss))" % (al, ss))
             index.append((i, j))
-    terms = c.coq_eval(ctx, "pres_" + flow, PRE, exprs, shard=40) if exprs else []
+    batch.add(exprs, lambda terms: judge_presentations(ctx, acc, rows, kf_ids, flow, index, terms))
+
+
+def judge_presentations(ctx, acc, rows, kf_ids, flow, index, terms):
     pred = {}
     for (i, j), t in zip(index, terms):
         pred[(i, j)] = (list(t[0]), list(t[1]))
@@ -452,22 +500,27 @@ def run(ctx):
                       "harness no longer builds against the implementation", no_input=True)
         return
     q = ctx.quick
-    # ---- encoding
-    check_enc(ctx, acc, binp, 150 if q else 4000)
-    # ---- framing
-    check_frames(ctx, acc, binp, 40 if q else 1000)
+    batch = Batch(ctx)
+    specs = [("enc", 150 if q else 4000), ("frame", 40 if q else 1000), ("stmt", 110 if q else 2500),
+             ("v0", 14 if q else 300), ("v1", 10 if q else 220)]
+    res = harness_rows(ctx, binp, specs)
+    for m, _ in specs:
+        rc, rows, out = res[m]
+        if rc != 0 or not rows:
+            ctx.violation({"layer": "harness " + m, "output": out[-1500:]}, "%s harness failed" % m, no_input=True)
+            return
+    ctx.log("harness runs done")
+    # ---- encoding, framing
+    check_enc(ctx, acc, batch, res["enc"][1])
+    check_frames(ctx, acc, batch, res["frame"][1])
     # ---- id-level statements
-    rc, out = c.run_bin(binp, ["stmt", ctx.seed, 110 if q else 2500], timeout=3000)
-    rows = [json.loads(l) for l in out.splitlines() if l.startswith("{")]
-    if rc != 0 or not rows:
-        ctx.violation({"layer": "harness stmt", "output": out[-1500:]}, "stmt harness failed", no_input=True)
-        return
-    check_stmt_rows(ctx, acc, rows, kf_ids, "id")
-    nties = check_ties(ctx, acc, rows)
+    rows = res["stmt"][1]
+    check_stmt_rows(ctx, acc, batch, rows, kf_ids, "id")
+    nties = check_ties(ctx, acc, batch, rows)
     ctx.cov["evaluations"] += len(rows)
     ctx.cov["traces_validated_against_impl"] += len(rows) + nties
     ctx.cov["samples"].append(json.dumps({k: v for k, v in rows[4].items() if k not in ("pert", "tie")})[:500])
-    # the Coq refutation witnesses must reproduce on the implementation (rows 0/1 and 4/5 of the corpus)
+    # the Coq refutation witnesses must reproduce on the implementation (first rows of the corpus)
     w1 = [d for d in rows[:2] if d["ss"] and d["ss"][0]["s"] == "notin" and not d["ss"][0]["set"]]
     w2 = [d for d in rows[:8] if d["ss"] and d["ss"][0]["s"] == "range" and d["ss"][0]["lo"]["a"].get("b") == "61" * 16]
     if not (w1 and all(d["prove"] == "None" for d in w1)) or not (w2 and all(d["prove"] == "Some" and d["verify"] is False for d in w2)):
@@ -475,15 +528,11 @@ def run(ctx):
                       "the refutation witnesses of Props/C18.v do not reproduce on the implementation (stale known finding?)",
                       no_input=True)
     # ---- presentations
-    for flow, n in (("v0", 14 if q else 300), ("v1", 10 if q else 220)):
-        rc, out = c.run_bin(binp, [flow, ctx.seed, n], timeout=6000)
-        prow = [json.loads(l) for l in out.splitlines() if l.startswith("{")]
-        if rc != 0 or not prow:
-            ctx.violation({"layer": "harness " + flow, "output": out[-1500:]}, "%s harness failed" % flow, no_input=True)
-            continue
+    for flow in ("v0", "v1"):
+        prow = res[flow][1]
         pres = [d for d in prow if d["k"] == "pres"]
-        check_presentations(ctx, acc, pres, kf_ids, flow)
-        nt = check_ties(ctx, acc, pres)
+        check_presentations(ctx, acc, batch, pres, kf_ids, flow)
+        nt = check_ties(ctx, acc, batch, pres)
         for d in prow:
             if d["k"] == "anchor":
                 acc.count("anchor:" + d["name"])
@@ -496,6 +545,8 @@ def run(ctx):
         ctx.cov["traces_validated_against_impl"] += len(pres) + nt
         if pres:
             ctx.cov["samples"].append(json.dumps({k: v for k, v in pres[0].items() if k not in ("pert", "tie")})[:500])
+    batch.run()
+    ctx.log("model evaluation and comparison done")
     ctx.cov["distinct_nontrivial"] = len(acc.nontrivial)
     ctx.notes["distribution"] = dict(sorted(acc.dist.items()))
     ctx.notes["perturbations"] = {"total": acc.pert, "by_kind": dict(sorted(acc.pert_kinds.items()))}
